@@ -27,6 +27,7 @@ type Spec struct {
 	Shards      func(tier string) int
 	Timeout     func(tier string) time.Duration // per worker wall-clock watchdog (inconclusive when it fires)
 	MinEvals    int64                           // fewer evaluations than this = "observed nothing"
+	MemLimitMB  int                             // RLIMIT_AS for non-race workers (0 = none): turns a runaway allocation into an attributable crash
 	// Required counters: the run fails as "observed nothing" when one of them is 0.
 	Required []string
 	Run      func(w *W)
